@@ -70,7 +70,17 @@ type Exec struct {
 	keep         []interface{}                    // callbacks kept alive by the harness (dropped by dropref)
 	ifaceBuilder *mocker.Builder                  // builder used by the rejected interface configurations (bad kinds 12-14)
 	handles      map[[2]int]mocker.ExportedMocker // mocker handle returned by the last fresh-lookup apply per (builder, target)
-	opi          int
+	// hmode: the live patch of (builder, target) was installed through a cancelled kept handle and no
+	// Cancel through that handle / Reset of the builder has SUCCEEDED since. The generator only lets
+	// the handle touch such a target; after a faulted operation the generator's view is ahead of the
+	// process, so the executor enforces the rule itself (fault configuration only).
+	hmode map[[2]int]bool
+	// opFailed: some operation of this history failed under an injected fault. From then on the
+	// generator's bookkeeping of kept handles no longer describes the process (it assumed the
+	// operation succeeded), so operations through a kept handle are no longer issued: a kept-handle
+	// Apply is skipped and a kept-handle Cancel becomes an ordinary lookup + Cancel (hmode excepted).
+	opFailed bool
+	opi      int
 }
 
 func (x *Exec) state(t int) *tstate {
@@ -101,7 +111,7 @@ func (x *Exec) how(ti int) int {
 
 // NewExec creates an interpreter for ops.
 func NewExec(env *world.Env, p *world.Plan, ops []world.Op) *Exec {
-	return &Exec{env: env, p: p, Ops: ops, st: map[int]*tstate{}, phUsed: map[int]bool{}, handles: map[[2]int]mocker.ExportedMocker{}}
+	return &Exec{env: env, p: p, Ops: ops, st: map[int]*tstate{}, phUsed: map[int]bool{}, handles: map[[2]int]mocker.ExportedMocker{}, hmode: map[[2]int]bool{}}
 }
 
 // Mocked reports whether the model says target ti is currently mocked by this interpreter.
@@ -199,6 +209,7 @@ func (x *Exec) guarded(f func()) (faulted bool) {
 	}
 	if simcore.FaultsFired() > before && strings.Contains(fmt.Sprint(pv), "access mem error") {
 		x.env.Probe("operation_failed_under_mprotect_fault")
+		x.opFailed = true
 		return true
 	}
 	panic(pv)
@@ -507,6 +518,9 @@ func (x *Exec) step(op world.Op) {
 			return // the mocker's internal state after a faulted operation is unspecified: only Cancel / Reset follow
 		}
 	}
+	if x.opFailed && op.K == "apply" && op.F&2 != 0 {
+		return
+	}
 	switch op.K {
 	case "apply":
 		t := Targets[op.T]
@@ -516,6 +530,7 @@ func (x *Exec) step(op world.Op) {
 		if kept := x.handles[[2]int{op.B, op.T}]; op.F&2 != 0 && kept != nil {
 			// the caller kept the handle of an earlier apply, cancelled it, and now re-applies through it
 			m = kept
+			x.hmode[[2]int{op.B, op.T}] = true
 			x.env.Probe("reapply_through_kept_handle")
 		} else {
 			m = t.Lookup(x.builder(op.B), op.N)
@@ -615,8 +630,11 @@ func (x *Exec) step(op world.Op) {
 	case "cancel":
 		t := Targets[op.T]
 		s := x.state(op.T)
+		key := [2]int{op.B, op.T}
+		kept := x.handles[key]
+		viaKept := kept != nil && ((op.F&2 != 0 && !x.opFailed) || x.hmode[key])
 		if x.guarded(func() {
-			if kept := x.handles[[2]int{op.B, op.T}]; op.F&2 != 0 && kept != nil {
+			if viaKept {
 				kept.Cancel()
 			} else {
 				t.Lookup(x.builder(op.B), op.N).Cancel()
@@ -626,12 +644,23 @@ func (x *Exec) step(op world.Op) {
 			x.checkImage()
 			return
 		}
+		if viaKept {
+			delete(x.hmode, key)
+		}
 		if s.owner == op.B {
 			*s = tstate{kind: kOrig, owner: -1}
 		}
 		x.env.T("cancel %s", shortName(t.Name))
 	case "reset":
-		if x.guarded(func() { x.builder(op.B).Reset() }) {
+		faulted := x.guarded(func() { x.builder(op.B).Reset() })
+		if faulted && op.N == 1 {
+			// retiring a builder: the caller repeats Reset until it succeeds (the fault budget is
+			// finite), otherwise the "never used again" builder would still own live patches
+			for try := 0; faulted && try < 8; try++ {
+				faulted = x.guarded(func() { x.builder(op.B).Reset() })
+			}
+		}
+		if faulted {
 			// Reset walks its mockers; a fault in the middle leaves every target of this builder in doubt
 			for ti, s := range x.st {
 				if s.owner == op.B {
@@ -649,6 +678,7 @@ func (x *Exec) step(op world.Op) {
 		for k := range x.handles {
 			if k[0] == op.B {
 				delete(x.handles, k)
+				delete(x.hmode, k)
 			}
 		}
 		if op.N == 1 { // retire: this builder object is never used again
@@ -689,6 +719,7 @@ func (x *Exec) step(op world.Op) {
 		for k := range x.handles {
 			if k[0] == op.B {
 				delete(x.handles, k)
+				delete(x.hmode, k)
 			}
 		}
 		for _, s := range x.st {
